@@ -158,7 +158,7 @@ Qed.
 Lemma hist_step p tr m l m' : Hist p tr m -> mon_step p m l = Some m' -> Hist p (tr ++ [l]) m'.
 Proof.
   intros HH H.
-  destruct l as [w|w|w| |k its| |w|c|w|w| | |w]; simpl in H.
+  destruct l as [w|w|w| |k its| |w|c|w|w| | |w| ]; simpl in H.
   - (* create *)
     destruct HH as [H1 H2 H3 H4 H5 H6 H7 H8 H9].
     destruct (lookup p w) as [it|] eqn:L; [|discriminate].
@@ -252,6 +252,7 @@ Proof.
     destruct (m_round m); [discriminate|]. destruct (forallb _ _); [|discriminate].
     inversion H; subst m'. apply (hist_silent p tr m); simpl; auto.
   - inversion H; subst m'. apply (hist_silent p tr m); simpl; auto.
+  - inversion H; subst m'. apply (hist_silent p tr m); simpl; auto.
 Qed.
 
 Theorem hist_run p tr : forall m, mon_run p mon_init tr = Some m -> Hist p tr m.
@@ -306,7 +307,7 @@ Lemma step_in_idle s l s' :
   end.
 Proof.
   intros HI H NX. unfold in_idle in *.
-  destruct l as [w|w|w| |k its| |w|c|w|w| | |w]; simpl in H.
+  destruct l as [w|w|w| |k its| |w|c|w|w| | |w| ]; simpl in H.
   - unfold do_create in H. destruct HI as [E|[E|E]]; rewrite E in H; discriminate.
   - unfold do_consume in H. destruct HI as [E|[E|E]]; rewrite E in H; discriminate.
   - unfold do_abandon in H. destruct HI as [E|[E|E]]; rewrite E in H; discriminate.
@@ -343,6 +344,7 @@ Proof.
   - congruence.
   - unfold do_end in H. destruct HI as [E|[E|E]]; rewrite E in H; discriminate.
   - unfold do_exit in H. destruct HI as [E|[E|E]]; rewrite E in H; discriminate.
+  - unfold do_cancel in H. destruct (st_cancelled s); [discriminate|]. inversion H; subst s'. simpl. auto.
 Qed.
 
 Lemma calls_of_cons k l tr :
@@ -350,7 +352,7 @@ Lemma calls_of_cons k l tr :
   match l with LFlush k' its => if Nat.eqb k' k then [(k', its)] else [] | _ => [] end ++ calls_of k tr.
 Proof.
   unfold calls_of. unfold flush_calls at 1. simpl. fold (flush_calls tr). rewrite filter_app.
-  destruct l as [w|w|w| |k' its| |w|c|w|w| | |w]; simpl; auto.
+  destruct l as [w|w|w| |k' its| |w|c|w|w| | |w| ]; simpl; auto.
 Qed.
 
 Lemma created_of_cons l tr :
@@ -374,7 +376,7 @@ Proof.
     split; auto. split.
     + rewrite created_of_cons, CR. destruct l; auto. destruct EFF.
     + intro k. rewrite calls_of_cons, <- app_assoc, CL.
-      destruct l as [w|w|w| |k' its| |w|c|w|w| | |w]; try (rewrite EFF; reflexivity); [destruct EFF|].
+      destruct l as [w|w|w| |k' its| |w|c|w|w| | |w| ]; try (rewrite EFF; reflexivity); [destruct EFF|].
       destruct EFF as [E1 [E2 E3]]. rewrite E3.
       destruct (Nat.eqb_spec k' k) as [->|NE].
       * unfold opt_call. rewrite entries_rest_same. simpl. rewrite <- E1. destruct its; [congruence|reflexivity].
